@@ -29,7 +29,15 @@ def reads_before_writes(stmts, defined=frozenset()):
     Path-sensitive over if / try / with; loops are treated conservatively."""
     defined = set(defined)
     rbw = set()
-    def reads(e): return {n.id for n in ast.walk(e) if isinstance(n, ast.Name) and isinstance(n.ctx, ast.Load)} if e is not None else set()
+    def reads(e):
+        if e is None: return set()
+        out = {n.id for n in ast.walk(e) if isinstance(n, ast.Name) and isinstance(n.ctx, ast.Load)}
+        for c in ast.walk(e):           # names bound by a comprehension are its own
+            if isinstance(c, (ast.ListComp, ast.SetComp, ast.GeneratorExp, ast.DictComp)):
+                for g in c.generators:
+                    bound = set(); _names_stored(g.target, bound)
+                    out -= bound
+        return out
     for s in stmts:
         if isinstance(s, ast.Assign):
             rbw |= reads(s.value) - defined
@@ -126,7 +134,11 @@ class Loops:
         xs, ety = self.iter_spec(s.iter, env, B)
         targets, ttypes, epat = self.elem_pattern(s.target, ety, env)
         has_ret = contains(s.body, (ast.Return,))
-        kind = 'ctl' if has_brk else ('ret' if has_ret else 'plain')
+        in_try = getattr(self, 'try_depth', 0) > 0      # pytr.trystate: an exception leaves the loop with the state of that moment
+        if in_try and has_ret: bad(s, '`return` in a loop inside try')
+        kind = 'ctl' if (has_brk or in_try) else ('ret' if has_ret else 'plain')
+        if hasattr(self, 'seen_targets'):
+            for x, t in zip(targets, ttypes): self.seen_targets[x] = t
         live_else = core.read_names(s.orelse) | live
         vars_ = self.loop_vars(s, env, live_else, targets)
         types = [env[v] for v in vars_]
@@ -149,7 +161,7 @@ class Loops:
                     ends.append(env2); return ('raw', '.ok default')
                 saved = self.ntmp
                 self.ret_types = [] if saved_rt is None else saved_rt
-                self.loops.append({'kind': kind, 'cont': probe, 'brk': probe if has_brk else None})
+                self.loops.append({'kind': kind, 'cont': probe, 'brk': probe if kind == 'ctl' else None})
                 try:
                     self._seq(s.body, body_env(types), probe, set(vars_))
                 finally:
@@ -165,7 +177,7 @@ class Loops:
             self.ret_types = saved_rt
             self.quiet -= 1
             final = lambda env2: ('raw', wrap_next.format(atom(state(env2, types))))
-            brk = (lambda env2: ('raw', f'.ok (.brk {atom(state(env2, types))})')) if has_brk else None
+            brk = (lambda env2: ('raw', f'.ok (.brk {atom(state(env2, types))})')) if kind == 'ctl' else None
             self.loops.append({'kind': kind, 'cont': final, 'brk': brk})
             try:
                 body = self._seq(s.body, body_env(types), final, set(vars_))
@@ -184,7 +196,7 @@ class Loops:
         if kind == 'ret':
             node = ('foreach', self.FOR_EACH_RET, xs, epat, pat, body, atom(init))
             return self.wrap(B, ('matchret', node, ret, pat, go(env2)))
-        node = ('foreach', self.FOR_EACH_CTL, xs, epat, pat, body, atom(init))
+        node = ('foreach', self.FOR_EACH_CTL + ('' if has_ret else ' (ρ := Empty)'), xs, epat, pat, body, atom(init))
         after_else = self._seq(s.orelse, env2, go, live) if s.orelse else go(env2)
         return self.wrap(B, ('matchctl', node, ret if has_ret else None, pat, after_else, go(env2)))
 
